@@ -79,6 +79,9 @@ impl Scene for Amb {
     fn pre(&self) {
         self.inner.pre();
         crate::scenes::set_ambient(self.amb);
+        if self.amb.recreate {
+            crate::scenes::set_alt_conv(true);
+        }
     }
     fn setup(&self, exec: &Exec) {
         self.inner.setup(exec)
@@ -182,6 +185,7 @@ pub struct Property {
 pub fn run_case_once(case: &Case, prefix: &[ChoiceRec]) -> (ExecResult, Vec<Entry>, u64) {
     crate::scenes::set_ambient(Default::default());
     crate::ops::reset_post();
+    crate::scenes::set_alt_conv(false);
     case.scene.pre();
     world::reset(case.scene.roles());
     let on_event: Rc<dyn Fn(vexec::ExecEvent, u64, u64)> = Rc::new(|ev, _, _| world::log_exec(ev));
@@ -206,6 +210,7 @@ pub fn run_case_real(case: &Case) -> Vec<Entry> {
     use std::future::Future;
     crate::scenes::set_ambient(Default::default());
     crate::ops::reset_post();
+    crate::scenes::set_alt_conv(false);
     case.scene.pre();
     world::reset(case.scene.roles());
     world::set_real_mode(true);
@@ -289,7 +294,7 @@ fn explore_case(idx: usize, case: &Case, deadline: Option<Instant>, want_sample:
         let log = log_cell.borrow();
         match res.end {
             vexec::EndReason::Quiescent => end_quiescent += 1,
-            vexec::EndReason::Horizon => end_horizon += 1,
+            vexec::EndReason::Horizon | vexec::EndReason::Spin => end_horizon += 1,
         }
         if outcomes.len() < MAX_OUTCOMES {
             outcomes.insert(outcome_hash(&log));
@@ -354,7 +359,7 @@ fn explore_case(idx: usize, case: &Case, deadline: Option<Instant>, want_sample:
             // cross-check against a real tokio runtime: its one schedule is one of the explored
             // interleavings, so its outcome must be among the explored outcomes
             #[cfg(feature = "rt-tokio")]
-            if complete && !stats.pruned && split.is_none() && outcomes.len() < MAX_OUTCOMES && case.exec.cancel.is_none() && case.exec.max_early_fires == 0 && std::env::var_os("VERIF_NO_REAL").is_none() {
+            if complete && !stats.pruned && split.is_none() && outcomes.len() < MAX_OUTCOMES && case.exec.cancel.is_none() && case.exec.max_early_fires == 0 && case.exec.real_crosscheck && std::env::var_os("VERIF_NO_REAL").is_none() {
                 let rlog = run_case_real(case);
                 let h = outcome_hash(&rlog);
                 out["real_checked"] = json!(1);
@@ -444,7 +449,7 @@ pub fn quiet_panics() {
 /// Worker: reads case indices from stdin, writes one JSON line per case.
 pub fn worker_main(prop: &Property, tier: Tier, deadline_unix_ms: u64) {
     quiet_panics();
-    let cases = (prop.cases)(tier);
+    let (cases, _) = tier_cases(prop, tier);
     // a case that turns out to have more executions than this is given back to be split
     let split_threshold: u64 = std::env::var("VERIF_SPLIT_AT").ok().and_then(|s| s.parse().ok()).unwrap_or(150_000);
     let stdin = std::io::stdin();
@@ -505,6 +510,21 @@ fn shuffle_indices(n: usize, seed: u64) -> Vec<usize> {
     v
 }
 
+/// The case list of a tier. The thorough tier is the thorough family *followed by* the quick
+/// tier's cases (marked in their description); `check_main` runs that tail first, so a thorough
+/// run covers at least what a quick run covers before it spends its budget on depth.
+pub fn tier_cases(prop: &Property, tier: Tier) -> (Vec<Case>, usize) {
+    let mut v = (prop.cases)(tier);
+    let own = v.len();
+    if tier == Tier::Thorough {
+        v.extend((prop.cases)(Tier::Quick).into_iter().map(|mut c| {
+            c.desc = format!("[quick-tier case] {}", c.desc);
+            c
+        }));
+    }
+    (v, own)
+}
+
 pub fn check_main(prop: &Property, tier: Tier) -> i32 {
     let t0 = Instant::now();
     let seed: u64 = std::env::var("VERIF_SEED").ok().and_then(|s| s.parse().ok()).unwrap_or(0);
@@ -519,14 +539,14 @@ pub fn check_main(prop: &Property, tier: Tier) -> i32 {
         .ok()
         .and_then(|s| s.parse().ok())
         .unwrap_or_else(|| std::thread::available_parallelism().map(|n| n.get()).unwrap_or(4));
-    let cases = (prop.cases)(tier);
+    let (cases, own_cases) = tier_cases(prop, tier);
     let ncases = cases.len();
     let descs: Vec<String> = cases.iter().map(|c| c.desc.clone()).collect();
     let bounds: Vec<Option<u32>> = cases.iter().map(|c| c.bound).collect();
     drop(cases);
     let deal_seed = if seed == 0 && tier == Tier::Thorough { 0x5eed } else { seed };
     let queue: Arc<Mutex<std::collections::VecDeque<String>>> =
-        Arc::new(Mutex::new(shuffle_indices(ncases, deal_seed).into_iter().map(|i| i.to_string()).collect()));
+        Arc::new(Mutex::new((own_cases..ncases).chain(shuffle_indices(own_cases, deal_seed)).map(|i| i.to_string()).collect()));
     let in_flight = Arc::new(AtomicUsize::new(0));
     const PARTS: u32 = 32;
     const SPLIT_DEPTH: usize = 6;
@@ -846,6 +866,7 @@ pub fn check_main(prop: &Property, tier: Tier) -> i32 {
             "samples": samples,
             "exhaustive": exhaustive,
             "cases": ncases,
+            "cases_run_first_from_the_quick_tier": ncases - own_cases,
             "cases_completed": complete_cases,
             "cases_skipped_wall": skipped,
             "cases_cut_by_wall": wall_hit_cases,
@@ -939,7 +960,7 @@ pub fn replay_main(props: &[Property], file: &str) -> i32 {
         return 2;
     };
     let tier = if v["tier"].as_str() == Some("thorough") { Tier::Thorough } else { Tier::Quick };
-    let cases = (prop.cases)(tier);
+    let (cases, _) = tier_cases(prop, tier);
     let idx = v["case_index"].as_u64().unwrap_or(0) as usize;
     let Some(case) = cases.get(idx) else {
         eprintln!("case index out of range");
@@ -993,7 +1014,7 @@ pub fn show_main(props: &[Property], pid: &str, tier: Tier, pat: &str) -> i32 {
         eprintln!("unknown property {pid}");
         return 2;
     };
-    let cases = (prop.cases)(tier);
+    let (cases, _) = tier_cases(prop, tier);
     let Some((idx, case)) = cases.iter().enumerate().find(|(_, c)| c.desc.contains(pat)) else {
         eprintln!("no case matches {pat:?}");
         return 2;
